@@ -91,7 +91,7 @@ def execute(sc) -> Result:
     try:
         account_run(res, run, sc)
         res.history_key = "|".join(map(str, (origin, sc["grid"].get("subgrid"), sc["tracker"].get("advection"),
-                                             truth.vert(sc)["N"]))) + "|" + abstract_history(run)
+                                             truth.vert(sc)["N"]))) + "|" + abstract_history(run, sc)
         e = run.error
         if e is not None:
             if e.in_harness:
